@@ -136,6 +136,12 @@ def run_tlc(module: str, cfg: str, *, workers: int | str = "auto", simulate: str
         raise TLCError(f"TLC timed out after {timeout}s: {' '.join(cmd)}") from exc
     finally:
         shutil.rmtree(meta, ignore_errors=True)
+        # the JVM's temporary directories of this run (java.io.tmpdir is .work): empty tlc-* folders
+        for d in WORK.glob("tlc-*"):
+            try:
+                d.rmdir()
+            except OSError:
+                pass
     out = proc.stdout + proc.stderr
     res = TLCResult(ok=True, wall_s=time.time() - t0, cmd=" ".join(cmd[cmd.index("tlc2.TLC"):]))
     if keep_output:
